@@ -82,7 +82,7 @@ func indexIsLast(k *Keyer, idx, slice ssa.Value, b *ssa.BasicBlock) bool {
 
 func c04(c *Ctx) {
 	p, r := c.K1(), c.R
-	r.Expl = "Structural clauses behind 'conditional stubs select by first matching condition, else default': the condition list is append-only; the selection function scans it from index 0 upwards by +1, returns the Result of exactly the matcher whose Match returned true, and falls through to the default, which panics when absent and the function has results; the MakeFunc callback never returns without a selected result; per-argument matching is a conjunction; the method receiver is dropped under the isMethod flag; unwrapping of the variadic element (Type.Elem / Value.Len/Index) is confined to the last parameter position. Per-argument truth is C18/C09."
+	r.Expl = "Structural clauses behind 'conditional stubs select by first matching condition, else default': the condition list is append-only; the selection function scans it from index 0 upwards by +1, returns the Result of exactly the matcher whose Match returned true, and falls through to the default, which panics when absent and the function has results; the MakeFunc callback never returns without a selected result; per-argument matching is a conjunction; the method receiver is dropped under the isMethod flag; unwrapping of the variadic element (Type.Elem / Value.Len/Index) is confined to the last parameter position, happens only under the variadic flag, visits the elements by a counting loop bounded by Len() of the indexed value, copies the fixed arguments as list[:len-1] of a non-empty list into a collector that starts empty, and uses the element type from the last position on; the mocker-level When hands the caller's condition arguments to the When; the stub-creating methods of one mocker agree on the receiver flag. Per-argument truth is C18/C09."
 	r.RuleText = "one obligation per (rule, function / store / unwrap site)"
 	r.Floor("C04.R1", 2)
 	r.Floor("C04.R2", 6)
